@@ -126,7 +126,10 @@ def _support(job):
             probs.append((name, 'bounded-family-has-unbounded-support', repr(ends.tolist())))
             continue
         w = ends[1] - ends[0]
-        out = np.array([ends[0] - 1e-9 * max(1, abs(ends[0])) - 1e-6 * w, ends[0] - w, ends[1] + 1e-9 * max(1, abs(ends[1])) + 1e-6 * w, ends[1] + w])
+        # points strictly outside the support also when the optimiser collapsed it to a width below floating-point resolution
+        # (scipy's Beta MLE on normal data: scale 1e-17, ppf(0) == ppf(1); seen with VERIF_SEED=41)
+        far = [max(w, 1e-6 * max(1, abs(e))) for e in ends]
+        out = np.array([ends[0] - 1e-9 * max(1, abs(ends[0])) - 1e-6 * w, ends[0] - far[0], ends[1] + 1e-9 * max(1, abs(ends[1])) + 1e-6 * w, ends[1] + far[1]])
         F = np.asarray(m.cumulative_distribution(out), dtype=float)
         P = np.asarray(m.probability_density(out), dtype=float)
         if not (np.all(F[:2] == 0.0) and np.all(F[2:] == 1.0) and np.all(P == 0.0)):
